@@ -24,7 +24,7 @@ is the one the driver executes (kind `compile`); `Extracted.compile*` is regener
 * `fuse_produces_safe`            – the name groups computed by the generator's `fuse` loop (with both filters, as extracted) are
                                     `fuseSafe` on the emitted program, for every `Graph.WF` graph on which `compile` succeeds;
                                     `compile_correct_wf_fused_total` / `compile_correct_extracted`: the fused statement without
-                                    per-graph premise.  Helper lemmas: `Proofs/Fuse{Safe,Loop,All,Emit,Scope,Compile}.lean`.
+                                    per-graph premise.  Helper lemmas: `Proofs/Fuse{Safe,Loop,All,Emit,Scope,Text,Compile}.lean`.
 * `compile_correct`               – the simulation for every context and traversal, under `matched` and `liveIn program = []`
                                     (also the terms of all cached values); `_flat`: no premise without nested graphs; `_compiled`:
                                     for `compile`; `_fused`: through any `fuseSafe` renaming (`fuse_sound`).
